@@ -222,14 +222,13 @@ def run_suites(ctx, oracle_fn, with_second=False):
             for c in chunk:
                 ev = evaluate_first(c)
                 evals.append(ev)
+                implrun.history_twin(lambda c=c: gen.build_circuit(c["nq"], c["nb"], c["specs"]), [["merge"]], ctx.rng)
             eqs = compare_with_model(ctx, name, chunk, evals)
             for case, ev, eq in zip(chunk, evals, eqs):
                 nrot = sum(1 for s in case["specs"] if s[0] in ("bsr",) or (s[0] == "named" and s[1] in gen.ONEQ_NOPARAM + gen.ONEQ_PARAM))
                 ctx.seen(case, nrot >= 1)
                 ctx.bump(f"rotations_{min(nrot, 6)}")
                 oracle_fn(ctx, name, case, ev, eq)
-                if ev["err"] is None and ctx.rng.random() < 0.3:
-                    implrun.history_noise(ev["circuit"], ctx.rng)
             if chunk:
                 ctx.sample({"specs": chunk[len(chunk) // 2]["specs"], "post_len": len(evals[len(chunk) // 2]["post"])})
 
